@@ -104,7 +104,7 @@ def tree_hash(paths):
     return h.hexdigest()
 
 
-def prune_cache(keep=60):
+def prune_cache(keep=100):
     cdir = os.path.join(BUILD, "cache")
     try:
         ents = [(os.path.getmtime(os.path.join(cdir, e)), e) for e in os.listdir(cdir)]
